@@ -9,7 +9,7 @@ case "$change" in
 esac
 mkdir -p /tmp/mut-$name-verif && cp /verif/known_findings.json /tmp/mut-$name-verif/
 for p in "$@"; do
-  VERIF_REPO=$d VERIF_ROOT=/tmp/mut-$name-verif /verif/bin/vcheck run $p --tier quick > /tmp/mut-$name-$p.log 2>&1
+  VERIF_REPO=$d VERIF_ROOT=/tmp/mut-$name-verif ${VCHECK:-/verif/bin/vcheck} run $p --tier quick > /tmp/mut-$name-$p.log 2>&1
   echo "$name $p exit=$? $(grep -c '^VIOLATION' /tmp/mut-$name-$p.log) violations; $(tail -1 /tmp/mut-$name-$p.log)"
 done
 rm -rf $d /tmp/mut-$name-verif
